@@ -34,6 +34,11 @@ Fixpoint bytes_ltb (a b : bytes) : bool :=
 
 Definition nlen {A} (l : list A) : N := N.of_nat (length l).
 
+(* list reversal in linear time (the standard library's rev is quadratic); frev_eq in Proofs *)
+Definition frev {A} (l : list A) : list A := rev_append l [].
+Lemma frev_eq {A} (l : list A) : frev l = rev l.
+Proof. unfold frev. symmetry. apply rev_alt. Qed.
+
 (* take k elements, None if not that many (where Go would index out of range) *)
 Fixpoint take {A} (k : nat) (l : list A) : option (list A) :=
   match k with
